@@ -509,6 +509,32 @@ def truc_rule_table(ctx, crate):
             ctx.add(['C17'], 'K-NORM', b.key, 'truc_type_name::<T>() is not truc_dynamic_type_name(type_name::<T>()): typed and dynamic names are normalised differently', key='typed-vs-dynamic')
         else:
             ctx.inst('K-NORM', 'truc_type_name::<T>() = truc_dynamic_type_name(type_name::<T>())')
+    # K-NORM pipeline: every answer of the normaliser is the token printer applied to the parsed and
+    # rewritten type (an answer produced any other way is spelled by a different printer: whitespace
+    # or the short/qualified spelling would then matter)
+    nb = crate.body(TN + 'truc_dynamic_type_name')
+    if nb is None:
+        ctx.add(['C17'], 'K-NORM', TN + 'truc_dynamic_type_name', 'function not found (anchor lost)', key='anchor-dyn')
+    else:
+        dom = nb.dominators(unwind=False)
+        parse = [bb for bb, c in nb.calls() if callee_path(c) == 'syn::parse_str' and (callee_ty_args(c) or [''])[0].endswith('syn::ty::Type')]
+        rewrite = [bb for bb, c in nb.calls() if (callee_path(c) or '').startswith(TN) and 'rewrite' in (callee_path(c) or '')]
+        if not rewrite:
+            # the visitor may be invoked directly
+            rewrite = [bb for bb, c in nb.calls() if 'VisitMut' in (callee_path(c, resolved=False) or '') or 'visit_type_mut' in (callee_path(c) or '')]
+        printer = [bb for bb, c in nb.calls() if (callee_path(c) or '').endswith('ToTokens>::to_tokens') or (callee_path(c) or '').endswith('ToTokens::to_token_stream') or (callee_path(c) or '').endswith('ToTokens>::to_token_stream')]
+        sites = [bb for bb, c in nb.calls() if c['dest']['l'] == 0 and not c['dest']['p'] and not nb.blocks[bb]['cleanup']]
+        sites += [bb for bb, si, s in nb.statements() if s['k'] == 'assign' and s['place']['l'] == 0 and not s['place']['p'] and not nb.blocks[bb]['cleanup']]
+        ok = bool(parse and rewrite and printer and sites)
+        for sbb in sites:
+            d = dom.get(sbb, set())
+            if not (set(parse) & d and set(rewrite) & d and set(printer) & d):
+                ok = False
+                ctx.add(['C17'], 'K-NORM', nb.key, 'the name normaliser can answer (bb%d) without having parsed, rewritten and re-printed the type: that answer is spelled by a different printer, so whitespace or the short / qualified spelling of a name decides whether a table lookup succeeds' % sbb, key='bypass')
+        if ok:
+            ctx.inst('K-NORM', 'truc_dynamic_type_name: every answer = print(rewrite(parse(name)))')
+        elif not (parse and rewrite and printer):
+            ctx.add(['C17'], 'K-NORM', nb.key, 'cannot find the parse / rewrite / print pipeline of the normaliser (unanalysable: fail closed)', key='pipeline')
     norm = {TN + 'truc_type_name', TN + 'truc_dynamic_type_name'}
     MAP_OPS = ('alloc::collections::btree::map::BTreeMap::<K, V, A>::entry', 'alloc::collections::btree::map::BTreeMap::<K, V, A>::get',
                'alloc::collections::btree::map::BTreeMap::<K, V, A>::insert', 'alloc::collections::btree::map::BTreeMap::<K, V, A>::get_mut',
@@ -542,7 +568,7 @@ def truc_rule_table(ctx, crate):
                     ctx.inst('K-NORM', '%s: key of %s is %s(..)' % (b.path.split('::')[-1], p.split('::')[-1], src.split('::')[-1]))
                 else:
                     ctx.add(['C17', 'C18'], 'K-NORM', b.key, 'the type table is accessed (%s) at %s with a key that does not come from the normaliser (%s)' % (p.split('::')[-1], where, src or term[0]), key='%s|%s' % (b.key, p.split('::')[-1]))
-    ctx.floor(['C17'], 'K-NORM', 4)
+    ctx.floor(['C17'], 'K-NORM', 5)
     # H-TABLE: lookups return the stored entry (clone of the BTreeMap::get result, no field write)
     for path, field in (('<truc::record::type_resolver::StaticTypeResolver as truc::record::type_resolver::TypeResolver>::type_info', 'info'),
                         ('<truc::record::type_resolver::StaticTypeResolver as truc::record::type_resolver::TypeResolver>::dynamic_type_info', None)):
